@@ -202,7 +202,7 @@ impl<'a> Rw<'a> {
             ("ifline-to-block", Stmt::IfLine { cond, then_, else_ }) => {
                 if self.want() {
                     self.applied.push(p.to_string());
-                    out.push(Stmt::If { arms: vec![(cond, vec![*then_])], else_: else_.map(|e| vec![*e]) });
+                    out.push(Stmt::If { arms: vec![(cond, then_)], else_ });
                 } else {
                     out.push(Stmt::IfLine { cond, then_, else_ });
                 }
@@ -294,6 +294,13 @@ pub fn rewrite(prog: &Program, rule: &str, pick: &dyn Fn(usize) -> bool) -> (Pro
     let mut out = prog.clone();
     out.main = rw.block(prog.main.clone(), "m");
     out.vars.extend(rw.new_vars.clone());
+    // subprogram bodies are rewritten as well (temporaries become locals of that subprogram)
+    for (pi, pr) in prog.procs.iter().enumerate() {
+        rw.new_vars.clear();
+        rw.base_vars = pr.vars.len();
+        out.procs[pi].body = rw.block(pr.body.clone(), &format!("p{}", pi));
+        out.procs[pi].vars.extend(rw.new_vars.clone());
+    }
     (out, rw.applied, rw.eligible)
 }
 
@@ -351,7 +358,7 @@ fn one_case(sh: &mut Shard, tape: &[u32], cfg: &GenCfg) -> Result<(), Violation>
     let joined = t.chance(1, 4);
     let used = t.used();
     let prog: Program = if with_calls {
-        // loops whose bodies call subprograms with loops of their own (only the main module is rewritten)
+        // loops whose bodies call subprograms with loops of their own (main module and subprogram bodies are rewritten)
         let mut c2 = GenCfg::core(8, 2);
         c2.procs = true;
         c2.data = false;
@@ -403,6 +410,9 @@ fn one_case(sh: &mut Shard, tape: &[u32], cfg: &GenCfg) -> Result<(), Violation>
     sh.class(&format!("rule:{}", rule));
     if with_calls {
         sh.class("base:program-with-subprograms");
+        if applied.iter().any(|p| p.starts_with('p')) {
+            sh.class("site-inside-subprogram");
+        }
     }
     sh.class(match mode {
         0 => "sites:one",
